@@ -55,6 +55,19 @@ def plan_cases(tier, seed):
                 v["ident"] = f"V{j:03d}"
             cfg = dict(corpus_rt.kappa_list(gapless)[i // 4 % 3][1])
             cfg["sorted"] = rng.choice([["value"], ["name"], ["name", "value"], []])
+        if i % 3 == 1:
+            # attributes of other tools on the enum and on its variants (several lint levels, docs, deprecation): whatever the
+            # derive reads or forwards from them must not pass through a hashed container on its way into the output
+            cfg = dict(cfg)
+            cfg["extra_attrs"] = ["/// An enum.", "#[allow(dead_code)]", "#[deny(unused_must_use)]", "#[warn(unused_mut)]", "#[allow(non_camel_case_types, unused)]",
+                                  "#[doc(alias = \"a\", alias = \"b\")]"][: 2 + i % 5]
+            for v in vs:
+                picked = []
+                for a in rng.sample(corpus_rt.VARIANT_FOREIGN_ATTRS, rng.choice([1, 2, 3])):
+                    # (rustc refuses a second `deprecated` / `non_exhaustive` on the same item)
+                    if not any(k in a and any(k in b for b in picked) for k in ("deprecated", "non_exhaustive")):
+                        picked.append(a)
+                v["attrs"] = picked
         cases.append({"id": i + 1, "repr": r, "variants": vs, "cfg": cfg})
     # threshold configurations: `iter` alone / with names on enums with holes of 1..9 variants of every repr
     # (auto picks table_inline below and next_and_back above num_values * size_guess = 8)
